@@ -244,39 +244,46 @@ def tickMapStage (mp : Option (Fsm × Option MapState)) (tb : Option Table) (now
     (some (f1, some (mapCheckCharge m1 nowS).1), tb1)
   | other => (other, tb)
 
+def tableEmptyOf (table : Option Table) : Bool := match table with | some t => t.isEmpty | none => true
+def allCompleteOf (table : Option Table) : Bool := match table with | some t => t.allComplete | none => true
+
+/-- the table-driven state update that precedes any transmit -/
+def enumUpdate (e : Fsm) (b : Band) (tableEmpty allComplete : Bool) (nowS : Nat) : Fsm × Band :=
+  if e.state ≠ 0 then
+    if tableEmpty then ({ e with state := 0 }, { b with helloTs := 0, blockTs := 0, begun := false })
+    else if allComplete then (stepEnumeration e X.enumSessComplete nowS, b)
+    else (stepEnumeration e X.enumSessNotComplete nowS, b)
+  else (e, b)
+
+/-- the Hello-timeout branch (state Pausing): (automaton, band, last-transmit time stamp, Hellos sent) -/
+def enumHello (e : Fsm) (b : Band) (lastTx0 : Nat) (port : PortMode) (nowMs : Nat) : Fsm × Band × Nat × List Nat :=
+  if b.helloTs > 0 ∧ nowMs ≥ b.helloTs then
+    let lastTx := match port with | .wired => lastTx0 | _ => 0
+    if lastTx > 0 ∧ diff64 nowMs lastTx < X.helloMinIntervalMs then
+      (e, { b with helloTs := lastTx + X.helloMinIntervalMs }, lastTx0, [])
+    else
+      let sent := match port with | .none => false | _ => true
+      let lastTx' := match port with | .wired => nowMs | _ => lastTx0
+      let b' := bandDoHello b nowMs
+      let b'' := if b'.helloTs < nowMs + X.helloMinIntervalMs then { b' with helloTs := nowMs + X.helloMinIntervalMs } else b'
+      (stepEnumeration e X.enumHello (nowMs / 1000), b'', lastTx', if sent then [nowMs] else [])
+  else (e, b, lastTx0, [])
+
+/-- the block-timeout branch -/
+def enumBlock (b : Band) (nowMs : Nat) : Band :=
+  if b.blockTs > 0 ∧ nowMs ≥ b.blockTs then bandChooseHelloTime (bandUpdateStats b nowMs) nowMs else b
+
 /-- the enumeration block of automata_tick; returns the automaton, the last-transmit
     time stamp and the periodic Hellos sent (times in ms) -/
 def tickEnumStage (en : Option (Fsm × Option Band)) (table : Option Table) (lastTx0 : Nat) (port : PortMode) (nowMs : Nat) :
     Option (Fsm × Option Band) × Nat × List Nat :=
-  let nowS := nowMs / 1000
   match en with
   | some (e, some b) =>
-    let tableEmpty := match table with | some t => t.isEmpty | none => true
-    let allComplete := match table with | some t => t.allComplete | none => true
-    let (e1, b1) : Fsm × Band :=
-      if e.state ≠ 0 then
-        if tableEmpty then ({ e with state := 0 }, { b with helloTs := 0, blockTs := 0, begun := false })
-        else if allComplete then (stepEnumeration e X.enumSessComplete nowS, b)
-        else (stepEnumeration e X.enumSessNotComplete nowS, b)
-      else (e, b)
-    if e1.state = 1 then
-      let (e2, b2, lastTx2, hellos) : Fsm × Band × Nat × List Nat :=
-        if b1.helloTs > 0 ∧ nowMs ≥ b1.helloTs then
-          let lastTx := match port with | .wired => lastTx0 | _ => 0
-          if lastTx > 0 ∧ diff64 nowMs lastTx < X.helloMinIntervalMs then
-            (e1, { b1 with helloTs := lastTx + X.helloMinIntervalMs }, lastTx0, [])
-          else
-            let (sent, lastTx') := match port with
-              | .wired => (true, nowMs)
-              | .nolast => (true, lastTx0)
-              | .none => (false, lastTx0)
-            let b' := bandDoHello b1 nowMs
-            let b'' := if b'.helloTs < nowMs + X.helloMinIntervalMs then { b' with helloTs := nowMs + X.helloMinIntervalMs } else b'
-            (stepEnumeration e1 X.enumHello nowS, b'', lastTx', if sent then [nowMs] else [])
-        else (e1, b1, lastTx0, [])
-      let b3 := if b2.blockTs > 0 ∧ nowMs ≥ b2.blockTs then bandChooseHelloTime (bandUpdateStats b2 nowMs) nowMs else b2
-      (some (e2, some b3), lastTx2, hellos)
-    else (some (e1, some b1), lastTx0, [])
+    let u := enumUpdate e b (tableEmptyOf table) (allCompleteOf table) (nowMs / 1000)
+    if u.1.state = 1 then
+      let r := enumHello u.1 u.2 lastTx0 port nowMs
+      (some (r.1, some (enumBlock r.2.1 nowMs)), r.2.2.1, r.2.2.2)
+    else (some (u.1, some u.2), lastTx0, [])
   | other => (other, lastTx0, [])
 
 /-- one call of automata_tick; second component: the periodic Hellos sent (times in ms) -/
